@@ -23,6 +23,18 @@ pub open spec fn count_matching(rs: Seq<CommandHistoryRecord>, c: CommandHistory
 pub proof fn lemma_count_bounded(rs: Seq<CommandHistoryRecord>, c: CommandHistoryCriteria, n: int)
     requires 0 <= n ensures 0 <= count_matching(rs, c, n) <= n decreases n
 { if n > 0 { lemma_count_bounded(rs, c, n - 1); } }
+/// the matching records among the first n, in order
+pub open spec fn matching(rs: Seq<CommandHistoryRecord>, c: CommandHistoryCriteria, n: int) -> Seq<CommandHistoryRecord> decreases n {
+    if n <= 0 { Seq::empty() } else if rec_matches(rs[n - 1], c) { matching(rs, c, n - 1).push(rs[n - 1]) } else { matching(rs, c, n - 1) }
+}
+pub proof fn lemma_matching_len(rs: Seq<CommandHistoryRecord>, c: CommandHistoryCriteria, n: int)
+    requires 0 <= n ensures matching(rs, c, n).len() == count_matching(rs, c, n) decreases n
+{ if n > 0 { lemma_matching_len(rs, c, n - 1); } }
+pub open spec fn min_int(a: int, b: int) -> int { if a <= b { a } else { b } }
+/// the page: the matches from position `offset`, at most `rows` of them
+pub open spec fn page_of(ms: Seq<CommandHistoryRecord>, offset: int, rows: int) -> Seq<CommandHistoryRecord> {
+    ms.subrange(min_int(offset, ms.len() as int), min_int(offset + rows, ms.len() as int))
+}
 '''
 
 
@@ -48,6 +60,8 @@ pub fn vx_reserve<T>(_n: usize) -> Vec<T> { unimplemented!() }
              ensures=[
                  ('offset_echoed', 'r.offset == criteria.offset'),
                  ('total_counts_all_matches', 'r.total == count_matching(records@, criteria, records@.len() as int)'),
+                 ('page_is_the_matches_from_offset_in_order_at_most_rows', '''r.commands@ == page_of(matching(records@, criteria, records@.len() as int), criteria.offset as int,
+                        (if criteria.rows_limit is Some { criteria.rows_limit->Some_0 as int } else { records@.len() as int }))'''),
                  ('page_is_bounded', '''r.commands@.len() <= records@.len()
                         && (criteria.rows_limit is Some ==> r.commands@.len() <= criteria.rows_limit->Some_0)
                         && r.commands@.len() + criteria.offset <= r.total || r.commands@.len() == 0'''),
@@ -57,7 +71,8 @@ pub fn vx_reserve<T>(_n: usize) -> Vec<T> { unimplemented!() }
                  ('counts', 'total as int == count_matching(records@, criteria, vx_it.index@ as int) && skipped as int <= total as int && skipped as int <= offset as int'),
                  ('still_skipping_or_done', '(skipped as int) < (offset as int) ==> skipped as int == total as int && commands@.len() == 0'),
                  ('page', 'commands@.len() <= rows && commands@.len() as int + skipped as int <= total as int && commands@.len() <= vx_it.index@'),
+                 ('page_so_far', 'commands@ == page_of(matching(records@, criteria, vx_it.index@ as int), offset as int, rows as int) && skipped as int == min_int(offset as int, total as int)'),
              ]}},
-             ghost=[(('loop_start', 0), 'proof { lemma_count_bounded(records@, criteria, vx_it.index@ as int); assert(*record == records@[vx_it.index@ as int]); reveal_with_fuel(count_matching, 2); }')]),
+             ghost=[(('loop_start', 0), 'proof { lemma_matching_len(records@, criteria, vx_it.index@ as int); lemma_matching_len(records@, criteria, vx_it.index@ as int + 1); reveal_with_fuel(matching, 2); lemma_count_bounded(records@, criteria, vx_it.index@ as int); assert(*record == records@[vx_it.index@ as int]); reveal_with_fuel(count_matching, 2); }')]),
     ])
     return U
